@@ -1,7 +1,58 @@
+//verif:overlay share/shwap/zz_verif_c18.go
+//verif:pkgs github.com/celestiaorg/go-square/v4/share
+//verif:init github.com/celestiaorg/go-square/v4/share github.com/celestiaorg/celestia-node/share/shwap
+//verif:bound EDS width parameter: 0..1024 (2x the protocol maximum of 512); ODS width for range ids: 0..512; every id field full-width symbolic (height uint64, indices int64, namespace 29 bytes)
+//verif:bound decoder inputs: arbitrary byte strings of length size-1, size, size+1 for each id type
+//verif:outside protobuf / length-delimited / JSON container codecs (generated or reflection-based; not encoded symbolically)
 package shwap
 
-import nd "github.com/celestiaorg/celestia-node/verifnd"
+import (
+	"bytes"
 
+	libshare "github.com/celestiaorg/go-square/v4/share"
+
+	nd "github.com/celestiaorg/celestia-node/verifnd"
+)
+
+// ---- constructor -> encode -> decode (no encoder alters a field) ----------
+
+//verif:opts nopanic cover=accepted,refused
+func VerifH_C18_EdsID() {
+	h := nd.U64("height")
+	id, err := NewEdsID(h)
+	if err != nil {
+		nd.Cover("refused")
+		nd.Assert(h == 0, "refused-only-zero-height")
+		return
+	}
+	nd.Cover("accepted")
+	b, err := id.MarshalBinary()
+	nd.Assert(err == nil && len(b) == EdsIDSize, "encodes")
+	back, err := EdsIDFromBinary(b)
+	nd.Assert(err == nil, "decodes")
+	nd.Assert(back.Equals(id) && back.Height() == h, "roundtrip")
+}
+
+//verif:opts nopanic cover=accepted,refused
+func VerifH_C18_RowID() {
+	h, row, size := nd.U64("height"), nd.Int("row"), nd.Int("edsSize")
+	nd.Assume(size >= 0 && size <= 1024)
+	id, err := NewRowID(h, row, size)
+	if err != nil {
+		nd.Cover("refused")
+		return
+	}
+	nd.Cover("accepted")
+	nd.Assert(0 <= id.RowIndex && id.RowIndex < size, "in-square")
+	nd.Assert(id.RowIndex == row && id.Height() == h, "fields-kept")
+	b, err := id.MarshalBinary()
+	nd.Assert(err == nil && len(b) == RowIDSize, "encodes")
+	back, err := RowIDFromBinary(b)
+	nd.Assert(err == nil, "decodes")
+	nd.Assert(back.Equals(id), "roundtrip")
+}
+
+//verif:opts nopanic cover=accepted,refused
 func VerifH_C18_SampleID() {
 	h, row, col, size := nd.U64("height"), nd.Int("row"), nd.Int("col"), nd.Int("edsSize")
 	nd.Assume(size >= 0 && size <= 1024)
@@ -12,8 +63,286 @@ func VerifH_C18_SampleID() {
 	}
 	nd.Cover("accepted")
 	nd.Assert(0 <= id.RowIndex && id.RowIndex < size && 0 <= id.ShareIndex && id.ShareIndex < size, "in-square")
+	nd.Assert(id.RowIndex == row && id.ShareIndex == col && id.Height() == h, "fields-kept")
 	b, err := id.MarshalBinary()
 	nd.Assert(err == nil && len(b) == SampleIDSize, "encodes")
 	back, err := SampleIDFromBinary(b)
-	nd.Assert(err == nil && back.Equals(id), "roundtrip")
+	nd.Assert(err == nil, "decodes")
+	nd.Assert(back.Equals(id), "roundtrip")
+}
+
+func symNamespace(tag string) (libshare.Namespace, []byte, bool) {
+	raw := nd.Bytes(libshare.NamespaceSize, tag)
+	ns, err := libshare.NewNamespaceFromBytes(raw)
+	return ns, raw, err == nil
+}
+
+//verif:opts nopanic cover=accepted,refused
+func VerifH_C18_NamespaceDataID() {
+	h := nd.U64("height")
+	ns, raw, ok := symNamespace("ns")
+	if !ok {
+		nd.Cover("refused")
+		return
+	}
+	id, err := NewNamespaceDataID(h, ns)
+	if err != nil {
+		nd.Cover("refused")
+		return
+	}
+	nd.Cover("accepted")
+	b, err := id.MarshalBinary()
+	nd.Assert(err == nil && len(b) == NamespaceDataIDSize, "encodes")
+	nd.Assert(bytes.Equal(b[EdsIDSize:], raw), "namespace-bytes-kept")
+	back, err := NamespaceDataIDFromBinary(b)
+	nd.Assert(err == nil, "decodes")
+	nd.Assert(back.Equals(id) && back.Height() == h, "roundtrip")
+}
+
+//verif:opts nopanic cover=accepted,refused
+func VerifH_C18_RowNamespaceDataID() {
+	h, row, size := nd.U64("height"), nd.Int("row"), nd.Int("edsSize")
+	nd.Assume(size >= 0 && size <= 1024)
+	ns, raw, ok := symNamespace("ns")
+	if !ok {
+		nd.Cover("refused")
+		return
+	}
+	id, err := NewRowNamespaceDataID(h, row, ns, size)
+	if err != nil {
+		nd.Cover("refused")
+		return
+	}
+	nd.Cover("accepted")
+	nd.Assert(0 <= id.RowIndex && id.RowIndex < size, "in-square")
+	b, err := id.MarshalBinary()
+	nd.Assert(err == nil && len(b) == RowNamespaceDataIDSize, "encodes")
+	nd.Assert(bytes.Equal(b[RowIDSize:], raw), "namespace-bytes-kept")
+	back, err := RowNamespaceDataIDFromBinary(b)
+	nd.Assert(err == nil, "decodes")
+	nd.Assert(back.Equals(id) && back.RowIndex == row && back.Height() == h, "roundtrip")
+}
+
+//verif:opts nopanic cover=accepted,refused
+func VerifH_C18_RangeID() {
+	h, from, to, ods := nd.U64("height"), nd.Int("from"), nd.Int("to"), nd.Int("odsSize")
+	nd.Assume(ods >= 0 && ods <= 512)
+	id, err := NewRangeNamespaceDataID(EdsID{height: h}, from, to, ods)
+	if err != nil {
+		nd.Cover("refused")
+		return
+	}
+	nd.Cover("accepted")
+	nd.Assert(0 <= id.From && id.From < id.To && id.To <= ods*ods, "in-square")
+	b, err := id.MarshalBinary()
+	nd.Assert(err == nil && len(b) == RangeNamespaceDataIDSize, "encodes")
+	back, err := RangeNamespaceDataIDFromBinary(b)
+	nd.Assert(err == nil, "decodes")
+	nd.Assert(back.Equals(id) && back.From == from && back.To == to, "roundtrip")
+}
+
+// The V0 identifier (bitswap range block) for every square the protocol
+// allows (ODS width <= 512, i.e. share indices up to 262144).
+//
+//verif:opts nopanic cover=accepted,refused
+func VerifH_C18_RangeIDV0() {
+	h, from, to, ods := nd.U64("height"), nd.Int("from"), nd.Int("to"), nd.Int("odsSize")
+	nd.Assume(ods >= 0 && ods <= 512)
+	id, err := NewRangeNamespaceDataIDV0(EdsID{height: h}, from, to, ods)
+	if err != nil {
+		nd.Cover("refused")
+		return
+	}
+	nd.Cover("accepted")
+	b, err := id.MarshalBinary()
+	if err != nil {
+		// an encoder may refuse what it cannot represent; it must not alter it
+		nd.Cover("encoder-refused")
+		return
+	}
+	nd.Assert(len(b) == RangeNamespaceDataIDV0Size, "encodes")
+	back, err := RangeNamespaceDataIDV0FromBinary(b)
+	nd.Assert(err == nil, "decodes")
+	nd.Assert(back.From == from && back.To == to && back.Height() == h, "roundtrip-fields-unaltered")
+}
+
+// ---- arbitrary bytes -> decode (refuse or canonical) ----------------------
+
+func wire(size int) []byte {
+	n := size - 1 + nd.Choice(3, "len")
+	return nd.Bytes(n, "wire")
+}
+
+//verif:opts nopanic cover=accepted,refused
+func VerifH_C18_EdsIDBytes() {
+	w := wire(EdsIDSize)
+	id, err := EdsIDFromBinary(w)
+	if err != nil {
+		nd.Cover("refused")
+		return
+	}
+	nd.Cover("accepted")
+	nd.Assert(len(w) == EdsIDSize, "length-checked")
+	nd.Assert(id.Validate() == nil, "valid")
+	b, err := id.MarshalBinary()
+	nd.Assert(err == nil && bytes.Equal(b, w), "canonical")
+}
+
+//verif:opts nopanic cover=accepted,refused
+func VerifH_C18_RowIDBytes() {
+	w := wire(RowIDSize)
+	id, err := RowIDFromBinary(w)
+	if err != nil {
+		nd.Cover("refused")
+		return
+	}
+	nd.Cover("accepted")
+	nd.Assert(len(w) == RowIDSize, "length-checked")
+	nd.Assert(id.Validate() == nil, "valid")
+	b, err := id.MarshalBinary()
+	nd.Assert(err == nil && bytes.Equal(b, w), "canonical")
+	size := nd.Int("edsSize")
+	nd.Assume(size >= 0 && size <= 1024)
+	if id.Verify(size) == nil {
+		nd.Assert(id.RowIndex >= 0 && id.RowIndex < size, "verify-in-square")
+	}
+}
+
+//verif:opts nopanic cover=accepted,refused
+func VerifH_C18_SampleIDBytes() {
+	w := wire(SampleIDSize)
+	id, err := SampleIDFromBinary(w)
+	if err != nil {
+		nd.Cover("refused")
+		return
+	}
+	nd.Cover("accepted")
+	nd.Assert(len(w) == SampleIDSize, "length-checked")
+	nd.Assert(id.Validate() == nil, "valid")
+	b, err := id.MarshalBinary()
+	nd.Assert(err == nil && bytes.Equal(b, w), "canonical")
+	size := nd.Int("edsSize")
+	nd.Assume(size >= 0 && size <= 1024)
+	if id.Verify(size) == nil {
+		nd.Assert(id.RowIndex >= 0 && id.RowIndex < size && id.ShareIndex >= 0 && id.ShareIndex < size, "verify-in-square")
+	}
+}
+
+//verif:opts nopanic cover=accepted,refused
+func VerifH_C18_NamespaceDataIDBytes() {
+	w := wire(NamespaceDataIDSize)
+	id, err := NamespaceDataIDFromBinary(w)
+	if err != nil {
+		nd.Cover("refused")
+		return
+	}
+	nd.Cover("accepted")
+	nd.Assert(len(w) == NamespaceDataIDSize, "length-checked")
+	nd.Assert(id.Validate() == nil, "valid")
+	b, err := id.MarshalBinary()
+	nd.Assert(err == nil && bytes.Equal(b, w), "canonical")
+}
+
+//verif:opts nopanic cover=accepted,refused
+func VerifH_C18_RowNamespaceDataIDBytes() {
+	w := wire(RowNamespaceDataIDSize)
+	id, err := RowNamespaceDataIDFromBinary(w)
+	if err != nil {
+		nd.Cover("refused")
+		return
+	}
+	nd.Cover("accepted")
+	nd.Assert(len(w) == RowNamespaceDataIDSize, "length-checked")
+	nd.Assert(id.Validate() == nil, "valid")
+	b, err := id.MarshalBinary()
+	nd.Assert(err == nil && bytes.Equal(b, w), "canonical")
+}
+
+//verif:opts nopanic cover=accepted,refused
+func VerifH_C18_RangeIDBytes() {
+	w := wire(RangeNamespaceDataIDSize)
+	id, err := RangeNamespaceDataIDFromBinary(w)
+	if err != nil {
+		nd.Cover("refused")
+		return
+	}
+	nd.Cover("accepted")
+	nd.Assert(len(w) == RangeNamespaceDataIDSize, "length-checked")
+	nd.Assert(id.Validate() == nil, "valid")
+	b, err := id.MarshalBinary()
+	nd.Assert(err == nil && bytes.Equal(b, w), "canonical")
+	ods := nd.Int("odsSize")
+	nd.Assume(ods >= 0 && ods <= 512)
+	if id.Verify(ods) == nil {
+		nd.Assert(0 <= id.From && id.From < id.To && id.To <= ods*ods, "verify-in-square")
+	}
+}
+
+//verif:opts nopanic cover=accepted,refused
+func VerifH_C18_RangeIDV0Bytes() {
+	w := wire(RangeNamespaceDataIDV0Size)
+	id, err := RangeNamespaceDataIDV0FromBinary(w)
+	if err != nil {
+		nd.Cover("refused")
+		return
+	}
+	nd.Cover("accepted")
+	nd.Assert(len(w) == RangeNamespaceDataIDV0Size, "length-checked")
+	nd.Assert(id.Validate() == nil, "valid")
+	b, err := id.MarshalBinary()
+	nd.Assert(err == nil && bytes.Equal(b, w), "canonical")
+}
+
+// ---- coordinate arithmetic -------------------------------------------------
+//
+// Symbolic-by-symbolic multiplication/division (row*size+col, idx/size) is the
+// one kernel here no back end decides at full width (probed: z3 4.8.12/5.1.0
+// and cvc5 in bit-blasting and integer encodings, 60-120 s). The square width
+// is therefore case-split: every power of two up to 1024 (the only widths the
+// protocol produces) as a concrete value, plus an arbitrary symbolic width up
+// to 16; coordinates stay fully symbolic 64-bit values.
+
+func coordSize() int {
+	if nd.Choice(2, "sizeKind") == 0 {
+		k := nd.Choice(12, "log2size") // 0 => size 0, else 1<<(k-1): 1..1024
+		if k == 0 {
+			return 0
+		}
+		return 1 << (k - 1)
+	}
+	size := nd.Int("edsSize")
+	nd.Assume(size >= 0 && size <= 16)
+	return size
+}
+
+//verif:opts nopanic cover=accepted,refused
+func VerifH_C18_Coords1D() {
+	row, col := nd.Int("row"), nd.Int("col")
+	size := coordSize()
+	idx, err := SampleCoordsAs1DIndex(SampleCoords{Row: row, Col: col}, size)
+	if err != nil {
+		nd.Cover("refused")
+		nd.Assert(row < 0 || col < 0 || row >= size || col >= size, "refused-only-outside")
+		return
+	}
+	nd.Cover("accepted")
+	nd.Assert(0 <= row && row < size && 0 <= col && col < size, "accepted-only-inside")
+	back, err := SampleCoordsFrom1DIndex(idx, size)
+	nd.Assert(err == nil, "inverse-accepts")
+	nd.Assert(back.Row == row && back.Col == col, "inverse")
+}
+
+//verif:opts nopanic cover=accepted,refused
+func VerifH_C18_CoordsFrom1D() {
+	idx := nd.Int("idx")
+	size := coordSize()
+	c, err := SampleCoordsFrom1DIndex(idx, size)
+	if err != nil {
+		nd.Cover("refused")
+		return
+	}
+	nd.Cover("accepted")
+	nd.Assert(0 <= c.Row && c.Row < size && 0 <= c.Col && c.Col < size, "in-square")
+	back, err := SampleCoordsAs1DIndex(c, size)
+	nd.Assert(err == nil && back == idx, "inverse")
 }
